@@ -146,13 +146,13 @@ def hand_files(draw):
         # directive chains (asm.rst, @bfix): '>' directives stacked before, and plain / '|' directives chained after,
         # another directive on the same instruction
         chain_after = []
-        if r < 42 and x not in removed and ch([0, 0, 0, 1]):
+        if r < 42 and not gaps and x not in removed and ch([0, 0, 0, 1]):
             for _ in range(ch([1, 1, 2])):
                 lines.append('@%s=>%s' % (rm, randop(x)))
             relocating = True
             inplace_only = False
             feats.add('chain:prepend')
-        if r < 42 and ch([0, 0, 0, 1]):
+        if r < 42 and not gaps and ch([0, 0, 0, 1]):
             chain_after = [randop(x) for _ in range(ch([1, 1, 2]))]
         if r < 15:
             lines.append('@%s=%s' % (m, samesize(k, x)))
@@ -215,8 +215,13 @@ def hand_files(draw):
             feats.add('block:' + m)
             continue
         elif r < 57:
-            lines.append('@if({asm}>1)//ssub=%s//' % samesize(k, x))      # alternative delimiters: the operation may contain commas
+            # alternative delimiters: the operation may contain commas. The condition reads the mode fields, including
+            # the part of the mode that is implied (-r implies @ofix, -f 3 implies @rsub); the wrapped directive is one
+            # that applies in every mode (isub) or in the mode the condition selects
+            field, op_, lim = ch(['asm', 'asm', 'fix']), ch(['>', '>=', '==', '<', '!=']), ch([0, 1, 2, 3])
+            lines.append('@if({%s}%s%d)//%s=%s//' % (field, op_, lim, ch(['isub', 'isub', 'ssub', 'ofix']), samesize(k, x)))
             feats.add('if')
+            feats.add('if:' + field)
         if draw(st.integers(0, 9)) == 0:
             lines.append('@nowarn')
             feats.add('nowarn')
@@ -345,7 +350,7 @@ def oracle(case, rec=None):
             if rec is not None:
                 rec.note('precondition:sna2skool-warning')
             return
-        if name == 'none' and '@isub' in skool:
+        if name == 'none' and ('@isub' in skool or '@if(' in skool):      # skool2asm has no mode below @isub ({asm} >= 1)
             name, aopt, bopt, asm_level, fix_level = MODES[1]
         img, rb = image_from_skool2bin(s, skool, bopt, case)
         aopts = list(aopt) + case['base'] + case['case'] + case['labels']
